@@ -42,7 +42,7 @@ CLAIMS = {
  "C18": ("Theorems C18_records_answer (every accepted addition records exactly the numbers supplied by the resolver/override) and "
          "C18_shape_preserved (a close changes nothing but offsets); entry-point model Res.entryInfo (typed / allow-uninit / override / dynamic / copy) driven by the same "
          "requests as the real entry points, with C18_entry_typed, _typed_uninit, _override (specified items verbatim, unspecified ones from the table), "
-         "_dynamic, _unregistered (a type missing from the table is refused), _copy, _recorded; C18_layout_factor: two histories that agree on the supplied sizes, alignments, "
+         "_dynamic, _unregistered (a type missing from the table is refused), _copy, _recorded; C18_same_answers_same_layout (the same calls under two resolvers whose answers agree on size and alignment give the same variants and offsets); C18_layout_factor: two histories that agree on the supplied sizes, alignments, "
          "removals and strategies (whatever the names, type names, uninit flags) yield the same variants and the same offset for every datum - every "
          "strategy commutes with erasing everything but size/alignment/offset (Proofs/LayoutFactor.lean). Decisive for the host-independence "
          "part is the tie: channel L drives typed/uninit/dynamic/override/copy entry points under synthetic resolvers whose answers "
